@@ -33,24 +33,29 @@ composite, or whatever `connect` / the receiver setter raise during `__setstate_
 inductive Err | runtime | type | recursion | conn | value | copy | readiness | serial
   deriving DecidableEq, Repr, Inhabited
 
-/-- behaviour switches of `__setstate__` (cf. C07's model):
+/-- behaviour switches of `__getstate__` / `__setstate__` (cf. C07's model):
 `revIter` — `_restore_connections_from_strings` reconnects in REVERSE stored order, so that the
-prepending `connect` rebuilds every input's list as it was (current tree: stored order, i.e. every
-input with several connections comes back with its priority reversed — KF-C07-1);
+prepending `connect` rebuilds every input's list as it was (fix 5575cee; before it: stored order, i.e.
+every input with several connections came back with its priority reversed — KF-C07-1 / KF-C03-1);
 `pushIn` / `pushOut` — the macro's input / output value links are re-forged through the
-`value_receiver` setter, which pushes the sender's value through the receiver's setter; otherwise
-by plain assignment of `_value_receiver` (current tree since fix 60885c9: inputs plain, outputs
-pushed) -/
+`value_receiver` setter, which pushes the sender's value through the receiver's setter; otherwise by
+plain assignment of `_value_receiver` (fixes 60885c9, 0750ad4);
+`ownOnly` — a composite stores only the connections to outputs of its own children (fix 1cbd831;
+before it every connection of a child's input was stored and one across the border made `loads` raise);
+`allIn` — `Macro._input_value_links` lists EVERY macro input, so one without receiver makes `dumps`
+raise (before fix ae32e81) -/
 structure Cfg where
   revIter : Bool
   pushIn  : Bool
   pushOut : Bool
+  ownOnly : Bool
+  allIn   : Bool
   deriving DecidableEq, Repr
 
+/-- the snapshot this round started from (02da358) -/
+def Cfg.pinned : Cfg := ⟨false, true, true, false, true⟩
 /-- the tree as it is now -/
-def Cfg.pinned : Cfg := ⟨false, false, true⟩
-/-- connections restored in reverse stored order, links by plain assignment -/
-def Cfg.repaired : Cfg := ⟨true, false, false⟩
+def Cfg.repaired : Cfg := ⟨true, false, false, true, false⟩
 
 structure Params where
   admits : Nat → Val → Bool
@@ -59,7 +64,7 @@ structure Params where
   /-- what a value comes back as from `pickle.loads(pickle.dumps(v))`; the current tree maps the
   marker to the marker (`NotData.__reduce__` names the global singleton) and data to an equal copy -/
   copyVal : Val → Val := id
-  cfg     : Cfg := Cfg.pinned
+  cfg     : Cfg := Cfg.repaired
 
 structure S where
   kind    : Nat → Kind
@@ -307,7 +312,9 @@ structure Comp where
   mins    : List Nat
   /-- channel ↦ input of a direct child with the same (owner label, label) -/
   resIn   : List (Nat × Nat)
-  /-- `for child in self for c in child.outputs` -/
+  /-- the outputs of the direct children (`out.owner.parent is self`) -/
+  kouts   : List Nat
+  /-- `for child in self for c in child.outputs` of a macro (`[]` for a workflow: no output links) -/
   couts   : List Nat
   /-- channel ↦ the macro's own output with the same label -/
   resMOut : List (Nat × Nat)
@@ -328,6 +335,10 @@ def rtClear (P : Params) (s : S) (scope : List Nat) : S :=
 /-- `_get_connections_as_strings` -/
 def strings (s : S) (dom : List Nat) : List (Nat × Nat) :=
   dom.flatMap fun i => (s.conns i).map fun o => (i, o)
+
+/-- what `Composite.__getstate__` stores for the composite `C` -/
+def saved (P : Params) (pre : S) (C : Comp) : List (Nat × Nat) :=
+  if P.cfg.ownOnly then (strings pre C.ins).filter (fun p => decide (p.2 ∈ C.kouts)) else strings pre C.ins
 
 /-- `_restore_connections_from_strings` -/
 def restoreConns (P : Params) (st : S) (res : List (Nat × Nat)) : List (Nat × Nat) → S × Option Err
@@ -363,11 +374,10 @@ def restoreLinks (P : Params) (fuel : Nat) (must push : Bool) (pre : S) (res : L
         | (st', some e) => (st', some e)
 
 def restoreComp (P : Params) (fuel : Nat) (pre st : S) (C : Comp) : S × Option Err :=
-  let saved := strings pre C.ins
-  match restoreConns P st C.resOut (if P.cfg.revIter then saved.reverse else saved) with
+  match restoreConns P st C.resOut (if P.cfg.revIter then (saved P pre C).reverse else saved P pre C) with
   | (st1, some e) => (st1, some e)
   | (st1, none) =>
-    match restoreLinks P fuel true P.cfg.pushIn pre C.resIn st1 C.mins with
+    match restoreLinks P fuel P.cfg.allIn P.cfg.pushIn pre C.resIn st1 C.mins with
     | (st2, some e) => (st2, some e)
     | (st2, none) => restoreLinks P fuel false P.cfg.pushOut pre C.resMOut st2 C.couts
 
